@@ -22,7 +22,7 @@ def implied_atoms(val):
             continue
         atoms = list(mf.at(r))
         if const_value(e) != 1:
-            atoms += facts.conjuncts(e, True)
+            atoms += facts.conjuncts(e, True, val)
         out.append(atoms)
     if not out:
         raise Broken("%s never returns true" % val.name)
@@ -179,6 +179,11 @@ def run(ctx):
         ok = any(a[0] == "truth" and a[2] is True and a[1] == want for a in fs)
         res.check(ok, "C04-R4", "guard:%s" % (callee_name(c2) or "").split("::")[-1][:30], c2.get("loc"), "dominated by isValidPacket(cursor, remaining) on the current values",
                   "a message is consumed without isValidPacket having been evaluated on the current cursor and remaining size")
+    # the validator itself is right (shared with C03-R4): a message is "complete" exactly when header and declared payload lie inside the remaining bytes
+    from rules import c03
+    for o in c03.run(ctx).obligations:
+        if o["rule"] == "C03-R4" and o["key"].startswith("isValidPacket:"):
+            res.check(o["ok"], "C04-R4", "complete-message:" + o["key"], o["loc"], o["detail"], o["detail"])
     # the loop continues as long as a complete (possibly empty) message can remain
     leaf = dec.cfg.branch_leaf(m.loop_block)
     a = facts.atom_of(leaf, True)
